@@ -4,8 +4,10 @@ import (
 	"io"
 	"os"
 	"path/filepath"
+	"strings"
 
 	"github.com/goatcms/goatcore/filesystem"
+	"github.com/goatcms/goatcore/varutil/goaterr"
 )
 
 // Copy duplicate a file or a directory
@@ -17,13 +19,41 @@ func Copy(src, dest string) error {
 }
 
 // CopyDirectory copy a directory and sub-direcotories and files on local files system.
-func CopyDirectory(src, dest string) error {
-	return filepath.Walk(src, func(path string, info os.FileInfo, err error) error {
-		subPath := path + "/" + info.Name()
-		if info.IsDir() {
-			return MkdirAll(subPath, filesystem.DefaultUnixDirMode)
+func CopyDirectory(src, dest string) (err error) {
+	var (
+		info             os.FileInfo
+		absSrc, absDest  string
+		relDest, subPath string
+	)
+	if info, err = os.Stat(src); err != nil {
+		return err
+	}
+	if !info.IsDir() {
+		return goaterr.Errorf("%s is not a directory", src)
+	}
+	if absSrc, err = filepath.Abs(src); err != nil {
+		return err
+	}
+	if absDest, err = filepath.Abs(dest); err != nil {
+		return err
+	}
+	if relDest, err = filepath.Rel(absSrc, absDest); err != nil {
+		return err
+	}
+	if relDest != ".." && !strings.HasPrefix(relDest, ".."+string(filepath.Separator)) {
+		return goaterr.Errorf("can not copy directory %s into itself (%s)", src, dest)
+	}
+	return filepath.Walk(absSrc, func(path string, info os.FileInfo, err error) error {
+		if err != nil {
+			return err
 		}
-		return CopyFile(src+subPath, dest+subPath)
+		if subPath, err = filepath.Rel(absSrc, path); err != nil {
+			return err
+		}
+		if info.IsDir() {
+			return MkdirAll(filepath.Join(absDest, subPath), filesystem.DefaultUnixDirMode)
+		}
+		return CopyFile(path, filepath.Join(absDest, subPath))
 	})
 }
 
